@@ -3,6 +3,7 @@
 -/
 import StathamModel.Eq
 import StathamModel.Lemmas.EqRefl
+import StathamModel.Lemmas.EqSymm
 import StathamModel.Validate
 import StathamModel.Tie
 namespace Statham.C17
@@ -18,8 +19,14 @@ def Statement : Prop :=
 /-- **Proved: reflexivity**, for every element tree whose dictionaries (literal objects, `properties`,
     `patternProperties`, `dependencies`) have distinct keys — i.e. every tree that can exist in Python; hence
     independently built copies of one schema are equal. The congruence clause is false as stated
-    (`counter_bool_number`); symmetry and congruence outside the recorded region are checked by correspondence. -/
+    (`counter_bool_number`); congruence outside the recorded region is checked by correspondence. -/
 theorem C17_partial_refl (e : Elem) (h : wfElem e = true) : elemEq e e = true := elemEq_refl e h
+
+/-- **Proved: symmetry**, for every pair of well-formed element trees: `a == b` and `b == a` agree — literals by
+    Python `==` (dictionaries order-insensitively), numbers by value, `properties` / `patternProperties` /
+    `dependencies` as mappings (the pigeonhole step: equal sizes + distinct names), class names ignored. -/
+theorem C17_symm (a b : Elem) (ha : wfElem a = true) (hb : wfElem b = true) : elemEq a b = elemEq b a :=
+  elemEq_symm a b ha hb
 
 def env0 : Env := { re := fun _ _ => false, fmt := fun _ => none }
 
